@@ -7,7 +7,7 @@ for d in sorted(glob.glob('/verif/seeded/C*')):
     sid = os.path.basename(d)
     m = json.load(open(d + '/meta.json'))
     t = json.load(open(d + '/trials.json')) if os.path.exists(d + '/trials.json') else []
-    mech = m['mechanism']
+    mech = m['mechanism'].replace('|', '/')
     if len(mech) > 150: mech = mech[:147] + '...'
     if not t:
         print(f'| {sid} | {mech} | | not run | |')
